@@ -588,6 +588,138 @@ class CopulaChainConstructor(FunctionContract):
         return (False, worst)
 
 
+class _ApplyPool:
+    """abstraction of the worker pool of MCLevyCopulaSimulation.__init__: apply_async(f, args) evaluates f(*args) (real body
+    or its hook) and hands the value back through get(); no scheduling property is used"""
+
+    def __init__(self, interp, *a, **k):
+        self.interp = interp
+
+    def __enter__(self):
+        return self
+
+    def __exit__(self, *a):
+        return False
+
+    def apply_async(self, fn, args=(), kwds=None, **kw):
+        r = self.interp.call(fn, list(args), dict(kwds or {}))
+
+        class R:
+            def get(self_inner, *a, **k):
+                return r
+        return R()
+
+
+class CopulaDiffusionMatrix(FunctionContract):
+    """MCLevyCopulaSimulation.__init__ (d = 2; real body; vol_adjustment_ij abstracted by C(i, j) = the (co)variance of the
+    jumps inside the central cell, which is what the real function returns -- bounded stand-in below; the worker pool and
+    scipy's matrix square root abstracted: sqrtm(M) = D with D D^T = M):
+      infinite variation: D D^T = diag(sigma_k^2) + [C(i, j)]   (the central-cell variance is ADDED to the squared diffusion),
+      finite variation:   D D^T = diag(sigma_k^2)               (nothing is added)."""
+    prop = "C04"
+    target = "rpylib.process.markovchain.markovchainlevycopula:MCLevyCopulaSimulation.__init__"
+    cases = ("infinite variation", "finite variation")
+
+    def __init__(self):
+        self.name = "MCLevyCopulaSimulation.__init__"
+
+    def configure(self, interp):
+        from pyvc import ctx
+        import scipy.linalg
+        P_ = "rpylib.process.markovchain.markovchainlevycopula:"
+
+        def vij(it, f, b):
+            g = ctx.PATH.ghost
+            i, j = int(b["i"]), int(b["j"])
+            g.setdefault("vij_calls", []).append((i, j, b["h"], b["levy_model"]))
+            return g["C"][min(i, j)][max(i, j)]
+        interp.hooks[P_ + "vol_adjustment_ij"] = vij
+        interp.hooks["rpylib.model.levycopulamodel:LevyCopulaModel.dimension"] = lambda it, f, b: 2
+        interp.hooks["rpylib.model.levycopulamodel:LevyCopulaModel.jump_of_finite_variation"] = lambda it, f, b: ctx.PATH.ghost["fv"]
+        interp.hooks[LM + "LevyModel.diffusion_coefficient"] = lambda it, f, b: b["self"].fields["sig"]
+        interp.opaque_hooks = dict(getattr(interp, "opaque_hooks", None) or {})
+        interp.opaque_hooks["pathos.multiprocessing.Pool"] = lambda it_, *a, **k: _ApplyPool(it_, *a, **k)
+        interp.native_hooks = dict(getattr(interp, "native_hooks", None) or {})
+
+        def sqrtm(it, M, *a, **k):
+            ctx.PATH.ghost["sqrtm_arg"] = M
+            return ("sqrtm-of", M)
+        interp.native_hooks[id(scipy.linalg.sqrtm)] = sqrtm
+
+    def setup(self, vc, case):
+        fv = case == "finite variation"
+        sig = vc.reals("sigma", 2)
+        vc.assume(And(*[s_ >= 0 for s_ in sig]))
+        C = [[vc.real("c00"), vc.real("c01")], [None, vc.real("c11")]]
+        vc.assume(And(C[0][0] >= 0, C[1][1] >= 0, C[0][1] * C[0][1] <= C[0][0] * C[1][1]))      # a covariance matrix
+        h = vc.real("h")
+        vc.assume(h > 0)
+        models = [vc.obj(LM + "LevyModel", sig=sig[k]) for k in range(2)]
+        cm = vc.obj("rpylib.model.levycopulamodel:LevyCopulaModel", models=models)
+        grid = vc.obj("rpylib.grid.spatial:CTMCGrid", h=h)
+        proc = vc.obj("rpylib.process.markovchain.markovchainlevycopula:MarkovChainLevyCopula", model=cm, grid=grid)
+        vc.ghost.update(fv=fv, C=C, sig=sig, h=h, cm=cm)
+        return dict(self=vc.obj("rpylib.process.markovchain.markovchainlevycopula:MCLevyCopulaSimulation"), process=proc)
+
+    def ensures(self, result, self_=None, process=None, **kw):
+        from pyvc import ctx
+        g = ctx.PATH.ghost
+        fv, C, sig = g["fv"], g["C"], g["sig"]
+        D = self_.fields.get("diffusion_matrix")
+        out = {"diffusion-matrix-is-the-square-root-of-the-variance-matrix": isinstance(D, tuple) and D[0] == "sqrtm-of"}
+        M = g.get("sqrtm_arg")
+        want = [[sig[0] * sig[0] + (0 if fv else C[0][0]), (0 if fv else C[0][1])], [(0 if fv else C[0][1]), sig[1] * sig[1] + (0 if fv else C[1][1])]]
+        ok = M is not None and getattr(M, "shape", None) == (2, 2)
+        lab = "nothing-added-for-finite-variation" if fv else "central-cell-covariance-added-to-the-squared-diffusion"
+        out[lab] = ok and And(*[lift(M[i][j]) == lift(want[i][j]) for i in range(2) for j in range(2)])
+        if not fv:
+            calls = g.get("vij_calls", [])
+            out["adjustment-computed-with-the-grid-step-on-the-process-model"] = len(calls) == 3 and And(*[c[2] == g["h"] for c in calls]) and all(c[3] is g["cm"] for c in calls)
+        return out
+
+    def replay(self, model, clause, case):
+        if "added" not in clause and "nothing" not in clause:
+            return None
+        import numpy as np
+        from contracts import battery
+        import rpylib.process.markovchain.markovchainlevycopula as mod
+        fv = case == "finite variation"
+
+        class P:      # the attributes the constructor reads
+            pass
+        cm = battery.copula_model(2, "clayton", margins="hem")
+        sig = [m.diffusion_coefficient() for m in cm.models]
+        Cn = {(0, 0): 0.02, (0, 1): 0.005, (1, 1): 0.03}
+        saved = (mod.vol_adjustment_ij, type(cm).jump_of_finite_variation)
+        try:
+            mod.vol_adjustment_ij = lambda i, j, h, m: Cn[(min(i, j), max(i, j))]
+            type(cm).jump_of_finite_variation = lambda self: fv
+            p = P(); p.model = cm; p.grid = P(); p.grid.h = 0.1
+            sim = mod.MCLevyCopulaSimulation.__new__(mod.MCLevyCopulaSimulation)
+            import pathos.multiprocessing as mp
+            saved_pool = mp.Pool
+
+            class Pool:
+                def __init__(self, *a, **k): pass
+                def __enter__(self): return self
+                def __exit__(self, *a): return False
+                def apply_async(self, f, args=(), **k):
+                    r = f(*args)
+                    return type("R", (), {"get": lambda s: r})()
+            mp.Pool = Pool
+            try:
+                mod.MCLevyCopulaSimulation.__init__(sim, p)
+            finally:
+                mp.Pool = saved_pool
+        finally:
+            mod.vol_adjustment_ij, type(cm).jump_of_finite_variation = saved
+        D = np.real(np.asarray(sim.diffusion_matrix, dtype=complex))
+        got = D @ D.T
+        want = np.diag([s_ ** 2 for s_ in sig]) + (0 if fv else np.array([[Cn[(0, 0)], Cn[(0, 1)]], [Cn[(0, 1)], Cn[(1, 1)]]]))
+        return (bool(np.max(np.abs(got - want)) > 1e-9), {"sigma": sig, "central_cell_covariance": [[0.02, 0.005], [0.005, 0.03]], "finite_variation": fv,
+                                                            "simulated_variance_matrix": got.tolist(), "expected": want.tolist()})
+
+
 class CopulaMarginMean(Lemma):
     """property statement for one margin of a copula chain, from the two contracts above: the constructor compensates margin
     k's drift with the cut-off radius of ITS OWN variation regime, initialisation adds the first moment outside the radius
@@ -644,7 +776,7 @@ class CopulaMarginMean(Lemma):
         return (abs(chain - mean) > 1e-6, {"margins": "HEM (finite variation) + CGMY y=1.3", "HEM_margin_chain_mean": chain, "HEM_truncated_mean": float(mean)})
 
 
-UNITS = [ComputeMuH(), Representations(), Initialisation(), MeanIdentity(), VolAdjustment(), ChainConstructor(), CopulaInitialisation(), CopulaChainConstructor(), CopulaMarginMean()]
+UNITS = [ComputeMuH(), Representations(), Initialisation(), MeanIdentity(), VolAdjustment(), ChainConstructor(), CopulaInitialisation(), CopulaChainConstructor(), CopulaDiffusionMatrix(), CopulaMarginMean()]
 ASSUMPTIONS = ["A1: floats are mathematical reals", "A6: integrate_against_x / xx are additive interval functions of a measure (C09)",
                "the first-moment integrals K, T are finite where a representation needs them (as the library assumes)"]
 TRUSTED_BASE = ["z3 5.1 (LRA/NRA + arrays + uninterpreted functions)", "pyvc interpreter + numpy models"]
@@ -683,8 +815,43 @@ class MeanBattery:
                         if len(samples) < 3:
                             samples.append(info)
                         grid.refine()
+        # copula chain: vol_adjustment_ij(k, k) is the central-cell variance of margin k (the function integrates the joint
+        # mass numerically with epsabs=1e-3 -- loose: agreement to 20%), and the simulated variance D D^T of the real
+        # MCLevyCopulaSimulation is sigma^2 + that adjustment
+        import rpylib.process.markovchain.markovchainlevycopula as mod
+        from rpylib.model.levycopulamodel import LevyCopulaModel
+        from rpylib.distribution.levycopula import ClaytonCopula
+        from rpylib.model.utils import create_levy_model, ModelType
+        ms = [create_levy_model(ModelType.CGMY)(c=0.1 + 0.05 * k, g=10.0, m=8.0 + k, y=1.3) for k in range(2)]
+        cm = LevyCopulaModel(models=ms, copula=ClaytonCopula(theta=0.7, eta=0.3))
+        h = 0.1
+        adj = {(i, j): float(mod.vol_adjustment_ij(i, j, h, cm)) for i, j in ((0, 0), (0, 1), (1, 1))}
+        for k in range(2):
+            ev += 1
+            want = float(ms[k].levy_triplet.nu.integrate_against_xx(-h / 2, h / 2))
+            if abs(adj[(k, k)] - want) > 0.2 * want:
+                viol.setdefault("cvar", {"obligation": f"{self.name}::copula-adjustment-is-the-central-cell-variance-of-the-margin", "bounded": self.name,
+                                         "witness": {"margins": "CGMY y=1.3 x2, Clayton", "h": h, "margin": k, "vol_adjustment_ij": adj[(k, k)], "central_cell_variance": want}})
+        ev += 1
+        saved = mod.vol_adjustment_ij
+        try:
+            mod.vol_adjustment_ij = lambda i, j, h_, m_: adj[(min(i, j), max(i, j))]
+
+            class P:
+                pass
+            p = P(); p.model = cm; p.grid = P(); p.grid.h = h
+            sim = mod.MCLevyCopulaSimulation.__new__(mod.MCLevyCopulaSimulation)
+            mod.MCLevyCopulaSimulation.__init__(sim, p)
+        finally:
+            mod.vol_adjustment_ij = saved
+        D = np.real(np.asarray(sim.diffusion_matrix, dtype=complex))
+        got = D @ D.T
+        wantm = np.array([[adj[(0, 0)], adj[(0, 1)]], [adj[(0, 1)], adj[(1, 1)]]])
+        if np.max(np.abs(got - wantm)) > 1e-9:
+            viol.setdefault("cmat", {"obligation": f"{self.name}::copula-simulated-variance-is-sigma2-plus-the-adjustment", "bounded": self.name,
+                                     "witness": {"margins": "CGMY y=1.3 x2 (sigma = 0), Clayton", "h": h, "simulated_variance_matrix": got.tolist(), "central_cell_covariance": wantm.tolist()}})
         return {"name": self.name, "evaluations": ev, "distinct_nontrivial": ev, "violations": list(viol.values()), "samples": samples,
-                "bound": "battery models x h x {uniform, geometric} x refinement 0..1"}
+                "bound": "battery models x h x {uniform, geometric} x refinement 0..1; one infinite-variation 2-d copula (CGMY y=1.3, Clayton), h=0.1"}
 
     def replay(self, rec):
         r = self.run("quick", 0)
